@@ -14,6 +14,8 @@ REASSOCIATING = {"remove_redundant_transpose_reduce"}
 
 
 def features(r: dict[str, Any]) -> str:
+    if r.get("t") == "pair":
+        return f"pair({r['a']['t']}:{features(r['a'])}|{r['b']['t']}:{features(r['b'])})"
     f: list[str] = []
     if r.get("extra_outputs"):
         f.append("mid_is_output")
